@@ -13,6 +13,7 @@ use vcore::print::{self, Kind, PrintOpts};
 use vcore::rng::Src;
 
 mod plans;
+mod findings;
 
 pub struct PtRng(pub TestRng);
 impl Src for PtRng {
@@ -51,6 +52,8 @@ pub struct Opts {
    pub engine: PathBuf,
    pub batches: usize,
    pub programs: Option<usize>,
+   pub from_replay: Option<PathBuf>,
+   pub findings: Option<PathBuf>,
 }
 
 fn parse() -> Opts {
@@ -62,6 +65,8 @@ fn parse() -> Opts {
       engine: PathBuf::from("/verif/engine"),
       batches: 16,
       programs: None,
+      from_replay: None,
+      findings: None,
    };
    let argv: Vec<String> = std::env::args().collect();
    let mut i = 1;
@@ -75,6 +80,8 @@ fn parse() -> Opts {
          "--engine" => o.engine = PathBuf::from(v),
          "--batches" => o.batches = v.parse().expect("batches"),
          "--programs" => o.programs = Some(v.parse().expect("programs")),
+         "--from-replay" => o.from_replay = Some(PathBuf::from(v)),
+         "--findings" => o.findings = Some(PathBuf::from(v)),
          other => panic!("unknown argument {other}"),
       }
       i += 2;
@@ -93,11 +100,32 @@ fn write_if_changed(path: &Path, content: &str) {
 }
 
 fn main() {
+   let argv: Vec<String> = std::env::args().collect();
+   if argv.len() == 3 && argv[1] == "--emit-findings" {
+      findings::emit(Path::new(&argv[2]));
+      return;
+   }
    let o = parse();
    for n in gen::VAR_POOL.iter().chain(gen::REL_POOL.iter()) {
       assert!(!gen::is_reserved_shape(n), "identifier pool contains reserved shape {n}");
    }
-   let groups = plans::plan(&o);
+   let mut groups = match &o.from_replay {
+      Some(p) => vec![group_from_replay(p, None)],
+      None => plans::plan(&o),
+   };
+   // committed replays of open known findings of this property run as fixed cases in every run
+   if let (Some(dir), None) = (&o.findings, &o.from_replay) {
+      if let Ok(txt) = std::fs::read_to_string(dir.join("known_findings.jsonl")) {
+         for line in txt.lines().filter(|l| !l.trim().is_empty()) {
+            let v: serde_json::Value = serde_json::from_str(line).expect("known_findings.jsonl line");
+            if v["status"] == "known" && v["property"] == o.prop.as_str() {
+               if let Some(rp) = v["replay"].as_str() {
+                  groups.push(group_from_replay(&dir.join(rp), Some(v["id"].as_str().unwrap_or("?").to_string())));
+               }
+            }
+         }
+      }
+   }
    // distribute groups over batches, balancing member counts
    let nb = o.batches.max(1).min(groups.len().max(1));
    let mut batches: Vec<Vec<&GroupSpec>> = (0..nb).map(|_| vec![]).collect();
@@ -118,6 +146,9 @@ fn main() {
          }
       }
    }
+   // package names must be unique across all workspaces that share the target directory (cargo derives the
+   // artifact hash of a workspace member from its path relative to the workspace root)
+   let tag = format!("{}{}", if o.from_replay.is_some() { "r" } else { "" }, o.prop.to_lowercase());
    let mut members = vec![];
    let mut total_programs = 0;
    let mut index = vec![];
@@ -140,7 +171,7 @@ fn main() {
             let text = print::program_text(&m.prog, &m.opts);
             writeln!(
                entries,
-               "      ::vglue::Entry {{ name: \"{bname}/{mod_name}\", ast: {mod_name}::AST, meta: {mod_name}::META, text: r########\"{text}\"########, new: {mod_name}::new, summary: {mod_name}::summary }},",
+               "      ::vglue::Entry {{ name: \"{bname}/{mod_name}\", ast: {mod_name}::AST, meta: {mod_name}::META, opts: {mod_name}::OPTS, text: r########\"{text}\"########, new: {mod_name}::new, summary: {mod_name}::summary }},",
                bname = name
             )
             .unwrap();
@@ -150,7 +181,7 @@ fn main() {
       writeln!(lib, "pub fn entries() -> Vec<::vglue::Entry> {{\n   vec![\n{entries}   ]\n}}").unwrap();
       write_if_changed(&dir.join("src/lib.rs"), &lib);
       let cargo = format!(
-         "[package]\nname = \"{name}\"\nversion = \"0.1.0\"\nedition = \"2021\"\n\n[dependencies]\nvglue = {{ path = \"{eng}/glue\" }}\nascent = {{ path = \"@REPO@/ascent\" }}\nascent-byods-rels = {{ path = \"@REPO@/byods/ascent-byods-rels\" }}\n",
+         "[package]\nname = \"{tag}_{name}\"\nversion = \"0.1.0\"\nedition = \"2021\"\n\n[dependencies]\nvglue = {{ path = \"{eng}/glue\" }}\nascent = {{ path = \"@REPO@/ascent\" }}\nascent-byods-rels = {{ path = \"@REPO@/byods/ascent-byods-rels\" }}\n",
          eng = o.engine.display()
       );
       write_if_changed(&dir.join("Cargo.toml.in"), &cargo);
@@ -158,15 +189,17 @@ fn main() {
    // one binary linking every batch library
    {
       let dir = ws.join("runall");
+      let runname = format!("run_{}{}", if o.from_replay.is_some() { "replay_" } else { "" }, o.prop.to_lowercase());
       let mut deps = String::new();
       let mut ext = String::new();
       for bi in 0..nb {
-         writeln!(deps, "b{bi} = {{ path = \"../b{bi}\" }}").unwrap();
-         writeln!(ext, "   e.extend(b{bi}::entries());").unwrap();
+         writeln!(deps, "{tag}_b{bi} = {{ path = \"../b{bi}\" }}").unwrap();
+         writeln!(ext, "   e.extend({tag}_b{bi}::entries());").unwrap();
       }
       let cargo = format!(
-         "[package]\nname = \"runall\"\nversion = \"0.1.0\"\nedition = \"2021\"\n\n[dependencies]\nvrunner = {{ path = \"{eng}/runner\" }}\n{deps}",
-         eng = o.engine.display()
+         "[package]\nname = \"{runname}\"\nversion = \"0.1.0\"\nedition = \"2021\"\n\n[dependencies]\nvrunner = {{ path = \"{eng}/runner\" }}\n{deps}",
+         eng = o.engine.display(),
+         runname = runname
       );
       write_if_changed(&dir.join("Cargo.toml"), &cargo);
       write_if_changed(&dir.join("src/main.rs"), &format!("fn main() {{\n   let mut e = vec![];\n{ext}   vrunner::driver::run_main(e);\n}}\n"));
@@ -179,6 +212,7 @@ fn main() {
    write_if_changed(&ws.join("Cargo.toml"), &ws_toml);
    write_if_changed(&ws.join(".cargo/config.toml"), "[net]\noffline = true\n");
    let plan = serde_json::json!({
+      "runner": format!("run_{}{}", if o.from_replay.is_some() { "replay_" } else { "" }, o.prop.to_lowercase()),
       "prop": o.prop, "tier": o.tier, "seed": o.seed, "batches": nb, "programs": total_programs,
       "groups": groups.len(), "index": index,
    });
@@ -196,7 +230,42 @@ pub fn meta(base: &str, variant: &str, kind: Kind, is_ref: bool) -> Meta {
       check_ast: false,
       rel_map: BTreeMap::new(),
       labels: vec![],
+      finding_id: None,
+      fixed_input: None,
    }
 }
 
 pub fn core_cfg() -> GenCfg { GenCfg::core() }
+
+#[derive(serde::Deserialize)]
+struct ReplayMember {
+   ast: Program,
+   opts: PrintOpts,
+   meta: Meta,
+}
+
+#[derive(serde::Deserialize)]
+struct ReplayFile {
+   base: String,
+   members: Vec<ReplayMember>,
+   input: vcore::val::Db,
+}
+
+fn group_from_replay(path: &Path, finding_id: Option<String>) -> GroupSpec {
+   let txt = std::fs::read_to_string(path).unwrap_or_else(|e| panic!("cannot read {}: {e}", path.display()));
+   let rf: ReplayFile = serde_json::from_str(&txt).unwrap_or_else(|e| panic!("bad replay file {}: {e}", path.display()));
+   let members = rf
+      .members
+      .into_iter()
+      .map(|m| {
+         let mut meta = m.meta;
+         if let Some(id) = &finding_id {
+            meta.base = format!("{}-{}", id, rf.base);
+            meta.finding_id = Some(id.clone());
+            meta.fixed_input = Some(rf.input.clone());
+         }
+         MemberSpec { prog: m.ast, opts: m.opts, meta }
+      })
+      .collect();
+   GroupSpec { members }
+}
